@@ -102,7 +102,7 @@ def family(P, g, name):
     raise ValueError(name)
 
 
-def _case(fam, kind, deep=False):
+def _case(fam, kind, deep=False, history=None):
     def fn(P, g):
         import numpy
 
@@ -110,8 +110,13 @@ def _case(fam, kind, deep=False):
         E, arity, regime = family(P, g, fam)
         box = regime != "exact"
         verts = []
+        targets = []
         for i in range(arity):
             p = mk_pose(P, g, kind, "p%d" % i, wrapped=True)
+            if history in ("inplace", "rebind"):
+                # the edge is first used at OTHER poses q_i and the vertices are moved to p_i afterwards
+                targets.append(p)
+                p = mk_pose(P, g, kind, "q%d" % i, wrapped=True)
             verts.append(g.Vertex(i, p))
         if box:
             for v in verts:
@@ -141,6 +146,20 @@ def _case(fam, kind, deep=False):
             # stay away from the wrap of the relative angle (the error function is discontinuous there by definition)
             rel = verts[1].pose - verts[0].pose
             P.assume(P.both(rel[2] >= -3.0, rel[2] <= 3.0))
+        if history is not None:
+            # first use (everything the edge offers is evaluated once), then the state changes
+            g.BaseEdge.calc_jacobians(e)
+            e.calc_chi2_gradient_hessian()
+            e.calc_chi2()
+            if history == "inplace":
+                for v, p in zip(verts, targets):
+                    v.pose[:] = p.to_array()
+            elif history == "rebind":
+                for v, p in zip(verts, targets):
+                    v.pose = p
+            elif history == "estimate":
+                est = P.real("z_new") if fam == "range2" else P.vector("z_new", len(est))
+                e.estimate = est
         before = [v.pose for v in verts]
         before_vals = [v.pose.to_array() for v in verts]
         J = g.BaseEdge.calc_jacobians(e)
@@ -209,4 +228,7 @@ def cases(tier):
                 continue
             heavy = fam in ("range2", "relpose")
             out.append(Case("%s-%s" % (fam, kind), _case(fam, kind, deep=False), timeout=30 if tier == "quick" else 300, old_timeout=60 if tier == "quick" else 300, validate=2, shards=4 if heavy and kind in ("SE2", "SE3") else 1, val_tol=1e-3, feas_timeout_ms=1500))
+    # histories: the edge was already differentiated at another state (caches / remembered sparsity on the edge object)
+    for fam, kind, mode in [("relpos", "R2", "inplace"), ("relpos", "SE2", "inplace"), ("prior", "R2", "estimate"), ("prior", "SE2", "inplace"), ("range2", "R2", "inplace"), ("range2", "R2", "rebind"), ("range2", "R2", "estimate"), ("midpoint", "R2", "rebind")]:
+        out.append(Case("history-%s-%s-%s" % (mode, fam, kind), _case(fam, kind, history=mode), timeout=30 if tier == "quick" else 300, old_timeout=60 if tier == "quick" else 300, validate=2, val_tol=1e-3, feas_timeout_ms=1500))
     return out
